@@ -6,6 +6,7 @@
 mod clpz;
 mod fd;
 mod hooks;
+mod search;
 mod util;
 
 fn main() {
@@ -28,10 +29,11 @@ fn main() {
             _ => { i += 1; }
         }
     }
-    let _ = seed;
     match (args[1].as_str(), args[2].as_str()) {
         ("search", "fd") => fd::search(&tier, only.as_deref()),
         ("replay", "fd") => fd::replay(&args[3]),
+        ("search", "search") => search::search(&tier, seed, only.as_deref()),
+        ("replay", "search") => search::replay(&args[3]),
         ("search", "hooks") => hooks::search(&tier, only.as_deref()),
         ("replay", "hooks") => hooks::replay(&args[3]),
         ("search", "clpz") => clpz::search(&tier, only.as_deref()),
